@@ -243,7 +243,7 @@ func (h *hist) runHistory() (violated bool) {
 		return true
 	}
 	for h.step = 1; h.step <= h.steps; h.step++ {
-		h.poisonOn = (h.prof.poison && h.step > h.steps/2) || os.Getenv("C12_POISON") != ""
+		h.poisonOn = h.prof.poison || os.Getenv("C12_POISON") != ""
 		h.kind = h.pickKind()
 		if f := os.Getenv("C12_ONLY"); f != "" { // triage aid
 			h.kind = f
